@@ -79,6 +79,20 @@ def reference_decode(ce, body: bytes):
     return "ok"
 
 
+def _zstd_bytewise(data):
+    """one frame fed byte by byte -> (status, output, bytes consumed)"""
+    o = zstd.ZstdDecompressor().decompressobj()
+    out = b""
+    for i in range(len(data)):
+        try:
+            out += o.decompress(data[i:i + 1])
+        except zstd.ZstdError:
+            return "error", out, i
+        if o.eof:
+            return "ok", out, i + 1
+    return "zstd-incomplete", out, len(data)
+
+
 def _decode_one(mode, data):
     if mode in ("gzip", "x-gzip"):
         out, first = b"", True
@@ -99,7 +113,16 @@ def _decode_one(mode, data):
             try:
                 out += o.decompress(data)
             except zstd.ZstdError:
-                return "error", out
+                # libzstd's verdict on some corrupt frames depends on how the input is split (a
+                # Frame_Content_Size that disagrees with the blocks is "Data corruption detected" when
+                # the frame arrives in one piece and a clean end of frame when it arrives in small
+                # pieces): a stream counts as undecodable only if the byte-wise feed is refused too.
+                st, o2, used = _zstd_bytewise(data)
+                if st != "ok":
+                    return st, out
+                out += o2
+                data = data[used:]
+                continue
             if not o.eof:
                 return "zstd-incomplete", out
             data = o.unused_data
@@ -278,7 +301,6 @@ class C13(Prop):
         for _ in range(30000 if deep else 3000):
             base = c12.PROP.random_case(rng)
             base["ops"] = [o for o in base["ops"] if not o.startswith("st") or base["framing"] != "chunked"]
-            base["ops"] = [o for i, o in enumerate(base["ops"]) if o != "st~" or i == 0]   # C12's stream(None) spin
             w = bytes.fromhex(base["wire"])
             if len(w) > 3000 or len(w) <= base["head_len"]:
                 continue
